@@ -938,7 +938,15 @@ func (e *Eng) execInstr(fr *Frame, b *ssa.BasicBlock, ins ssa.Instruction, st *S
 	case *ssa.Go:
 		e.note("goroutine spawn in %s: %s (body verified separately if under contract; spawn contributes nothing to the caller)", fnKey(fr.fn), calleeName(x.Common()))
 		fr.siteIns = x
-		e.siteAsserts(fr, "go", calleeName(x.Common()), x.Pos(), st, g, nil)
+		gomap := map[string]*Val{}
+		for i, a := range x.Common().Args {
+			av := e.valOf(fr, st, a)
+			gomap[fmt.Sprintf("arg%d", i)] = av
+			if f := x.Common().StaticCallee(); f != nil && i < len(f.Params) {
+				gomap[f.Params[i].Name()] = av
+			}
+		}
+		e.siteAsserts(fr, "go", calleeName(x.Common()), x.Pos(), st, g, gomap)
 		fr.siteIns = nil
 	case *ssa.Defer:
 		d := deferred{call: x, guard: g, block: b}
